@@ -52,6 +52,8 @@ func (s *SoftwrapScanner) Scan(ctx vxfw.DrawContext) bool
   ensures C16_go:   (old(len(s.rest)) > 0 && s.width > 0) ==> result
   exit 3 assert C16_progress3: len(s.rest) < old(len(s.rest)) && w <= s.width
   exit 4 assert C16_progress4: len(s.rest) < old(len(s.rest)) && w <= s.width
+  -- a word is put on the line only if it fits there, also when a hard break follows it
+  exit 4 assert C16_fit4: w + wordLen <= s.width
   exit 5 assert C16_progress5: len(s.rest) < old(len(s.rest)) && w <= s.width
   -- outside the long-word case the bytes keep their places: the line is a prefix of the remaining text, what remains
   -- is a suffix of it, and what lies between is the trailing space that did not fit (exit 5), the line terminator of a
